@@ -274,3 +274,61 @@ def exact_belief_mdp_row(m, b, a):
         if post is not None:
             row[tuple(post)] = row.get(tuple(post), 0) + pr
     return row
+
+
+# ---------------------------------------------------------------------------------------------
+# "tiny-mass" beliefs: a possible but very unlikely observation (0 < Pr(o | b, a) <= 1e-8)
+# ---------------------------------------------------------------------------------------------
+def tiny_total(m):
+    """Total integer weight W of a tiny-mass belief: the rare state gets weight 1 (probability 1/W).
+    W * PD * OD <= 5e8 keeps every product of spec/lib/POMDP.tla below the 2^30 overflow guard for
+    the belief itself and for its (un-tabled) successors."""
+    return 5 * 10 ** 8 // (m["PD"] * m["OD"])
+
+
+def plant_rare_observation(rng, m):
+    """Rewrites m IN PLACE so that some observation o* under some action a* can only be produced
+    from ONE state t (through the successor n*), with O[a*][n*][o*] = 1/OD, and returns
+    (t, a*, o*, beliefs): integer weight vectors that put weight 1 on t and the rest of
+    W = tiny_total(m) on other states (positions varied, zero components included).  Then
+    Pr(o* | b, a*) = P[t][a*][n*]/PD / (OD * W) <= PD / 5e8 <= 8e-9 although the observation is
+    possible, and its Bayes posterior is a proper distribution (on the successors of t).
+    Requires N >= 2 and NO >= 2; use an explicit state list (rows are rewritten)."""
+    N, K, NO, PD, OD = m["N"], m["K"], m["NO"], m["PD"], m["OD"]
+    assert N >= 2 and NO >= 2
+    t = rng.randrange(N)
+    a = rng.randrange(K)
+    o = rng.randrange(NO)
+    succ = [n for n in range(N) if m["P"][t][a][n] > 0]
+    n_star = rng.choice(succ)
+    for s in range(N):
+        if s != t and m["P"][s][a][n_star] > 0:        # nobody else reaches n*
+            other = rng.choice([n for n in range(N) if n != n_star])
+            m["P"][s][a][other] += m["P"][s][a][n_star]
+            m["P"][s][a][n_star] = 0
+    for n in range(N):
+        row = m["O"][a][n]
+        keep = 1 if n == n_star else 0                 # only n* emits o*, with probability 1/OD
+        if row[o] != keep:
+            other = max((x for x in range(NO) if x != o), key=lambda x: row[x])   # has mass whenever row[o] = 0
+            row[other] += row[o] - keep
+            row[o] = keep
+    if any(m["abs"]):
+        m["ghost"] = 1                                 # rows of absorbing states may have been rewritten
+    W = tiny_total(m)
+    others = [s for s in range(N) if s != t]
+    beliefs = []
+    w = [0] * N
+    w[t], w[rng.choice(others)] = 1, W - 1
+    beliefs.append(w)
+    if len(others) >= 2:
+        x, y = rng.sample(others, 2)
+        w = [0] * N
+        k = rng.randint(1, W - 2)
+        w[t], w[x], w[y] = 1, k, W - 1 - k
+        beliefs.append(w)
+    w = [0] * N                                        # tiny mass, but every observation stays likely
+    w[t] = W - 1
+    w[rng.choice(others)] = 1
+    beliefs.append(w)
+    return t, a, o, beliefs
